@@ -355,7 +355,7 @@ func c15DecoderCases(c *Ctx) []c15Case {
 	}
 	// every quality 1..100 with both sources and both component counts
 	n := 0
-	for r := 0; r < c.N(1, 3); r++ {
+	for r := 0; r < c.N(2, 6); r++ {
 		for q := 1; q <= 100; q++ {
 			for _, comps := range []int{1, 3} {
 				add("imagejpeg", rng.Range(1, 40), rng.Range(1, 40), comps, q, "")
@@ -369,7 +369,7 @@ func c15DecoderCases(c *Ctx) []c15Case {
 			if !c.Thor && rng.Intn(3) != 0 {
 				continue
 			}
-			reps := c.N(1, 4)
+			reps := c.N(3, 8)
 			for r := 0; r < reps; r++ {
 				add(pickSrc(n), w, h, []int{1, 3, 3}[n%3], rng.Range(1, 100), "")
 				n++
@@ -419,6 +419,9 @@ func runC15(c *Ctx) {
 		"(grey/4:4:4/4:2:2/4:2:0/4:4:0, standard or optimised Huffman tables, restart intervals, JFIF/Adobe/COM, table ids) -> image/jpeg.Decode " +
 		"as independent result vs baseline.Decode and extended.Decode; non-trivial = content not constant"
 	atomic.StoreInt64(&c15MinBudget, 400)
+	if replayCases(c) {
+		return
+	}
 	// ---- (a) encoder side ----
 	enc := c11Cases(c)
 	var enc8 []c11Case
